@@ -185,7 +185,12 @@ def program_text(prog):
         elif k in ("wp", "wpr"):
             parts.append("%s:%s" % (k, payload_text(o[1])))
         elif k == "wps":
-            parts.append("wps:" + "+".join(payload_text(p) for p in o[1]))
+            body = "+".join(payload_text(p) for p in o[1])
+            # the same batch is handed over through different iterator types (exact size hint, lazy
+            # `filter` with lower bound 0, single-use `from_fn` with no bounds, a `chain`): the flavour is a
+            # function of the text, so no random choice is consumed
+            flavour = ("wps", "wpl", "wpf", "wpc")[(len(body) + len(o[1]) + len(parts)) % 4]
+            parts.append(flavour + ":" + body)
         elif k == "tlv":
             parts.append("tlv:%s:%s" % (o[1], spec(o[2])))
         else:
